@@ -6,157 +6,9 @@ package PKGNAME
 
 import (
 	"context"
-	"strconv"
 
 	"go.opentelemetry.io/collector/exporter/exporterhelper/internal/sizer"
-	"go.opentelemetry.io/collector/pdata/pcommon"
-	"go.opentelemetry.io/collector/pdata/pmetric"
 )
-
-type vc04Point struct {
-	id                               uint64
-	rattr, rschema                   string
-	sname, sschema                   string
-	mname, munit, mdesc, mmeta       string
-	mtype                            pmetric.MetricType
-	temporality                      pmetric.AggregationTemporality
-	monotonic                        bool
-}
-
-func vc04TypeName(t pmetric.MetricType) string {
-	switch t {
-	case pmetric.MetricTypeGauge:
-		return "gauge"
-	case pmetric.MetricTypeSum:
-		return "sum"
-	case pmetric.MetricTypeHistogram:
-		return "histogram"
-	case pmetric.MetricTypeExponentialHistogram:
-		return "exphistogram"
-	case pmetric.MetricTypeSummary:
-		return "summary"
-	}
-	return "empty"
-}
-
-func vc04BuildMetrics(tag string, nextID *uint64, maxP int) (pmetric.Metrics, []vc04Point) {
-	md := pmetric.NewMetrics()
-	var pts []vc04Point
-	nr := 1 + vChoice(tag+"-resources", vParam("maxR"))
-	for r := 0; r < nr; r++ {
-		rm := md.ResourceMetrics().AppendEmpty()
-		rattr := tag + "r" + strconv.Itoa(r)
-		rm.Resource().Attributes().PutStr("res", rattr)
-		rm.SetSchemaUrl("rs:" + rattr)
-		sm := rm.ScopeMetrics().AppendEmpty()
-		sname := rattr + "s0"
-		sm.Scope().SetName(sname)
-		sm.SetSchemaUrl("ss:" + sname)
-		nm := 1 + vChoice(tag+"-metrics", 2)
-		for m := 0; m < nm; m++ {
-			me := sm.Metrics().AppendEmpty()
-			mname := sname + "m" + strconv.Itoa(m)
-			me.SetName(mname)
-			me.SetUnit("u:" + mname)
-			me.SetDescription("d:" + mname)
-			me.Metadata().PutStr("meta", "x:"+mname)
-			base := vc04Point{rattr: rattr, rschema: "rs:" + rattr, sname: sname, sschema: "ss:" + sname,
-				mname: mname, munit: "u:" + mname, mdesc: "d:" + mname, mmeta: "x:" + mname}
-			np := 1 + vChoice(tag+"-points", maxP)
-			add := func() uint64 { *nextID++; p := base; p.id = *nextID; pts = append(pts, p); return *nextID }
-			switch vChoice(tag+"-type", 5) {
-			case 0:
-				base.mtype = pmetric.MetricTypeGauge
-				g := me.SetEmptyGauge()
-				for i := 0; i < np; i++ {
-					g.DataPoints().AppendEmpty().SetTimestamp(pcommon.Timestamp(add()))
-				}
-			case 1:
-				base.mtype = pmetric.MetricTypeSum
-				base.temporality = pmetric.AggregationTemporalityCumulative
-				base.monotonic = true
-				s := me.SetEmptySum()
-				s.SetAggregationTemporality(pmetric.AggregationTemporalityCumulative)
-				s.SetIsMonotonic(true)
-				for i := 0; i < np; i++ {
-					s.DataPoints().AppendEmpty().SetTimestamp(pcommon.Timestamp(add()))
-				}
-			case 2:
-				base.mtype = pmetric.MetricTypeHistogram
-				base.temporality = pmetric.AggregationTemporalityDelta
-				h := me.SetEmptyHistogram()
-				h.SetAggregationTemporality(pmetric.AggregationTemporalityDelta)
-				for i := 0; i < np; i++ {
-					h.DataPoints().AppendEmpty().SetTimestamp(pcommon.Timestamp(add()))
-				}
-			case 3:
-				base.mtype = pmetric.MetricTypeExponentialHistogram
-				base.temporality = pmetric.AggregationTemporalityCumulative
-				h := me.SetEmptyExponentialHistogram()
-				h.SetAggregationTemporality(pmetric.AggregationTemporalityCumulative)
-				for i := 0; i < np; i++ {
-					h.DataPoints().AppendEmpty().SetTimestamp(pcommon.Timestamp(add()))
-				}
-			case 4:
-				base.mtype = pmetric.MetricTypeSummary
-				s := me.SetEmptySummary()
-				for i := 0; i < np; i++ {
-					s.DataPoints().AppendEmpty().SetTimestamp(pcommon.Timestamp(add()))
-				}
-			}
-		}
-	}
-	return md, pts
-}
-
-func vc04FlattenMetrics(md pmetric.Metrics) []vc04Point {
-	var out []vc04Point
-	for r := 0; r < md.ResourceMetrics().Len(); r++ {
-		rm := md.ResourceMetrics().At(r)
-		rattr := ""
-		if v, ok := rm.Resource().Attributes().Get("res"); ok {
-			rattr = v.Str()
-		}
-		for s := 0; s < rm.ScopeMetrics().Len(); s++ {
-			sm := rm.ScopeMetrics().At(s)
-			for m := 0; m < sm.Metrics().Len(); m++ {
-				me := sm.Metrics().At(m)
-				base := vc04Point{rattr: rattr, rschema: rm.SchemaUrl(), sname: sm.Scope().Name(), sschema: sm.SchemaUrl(),
-					mname: me.Name(), munit: me.Unit(), mdesc: me.Description(), mtype: me.Type()}
-				if v, ok := me.Metadata().Get("meta"); ok {
-					base.mmeta = v.Str()
-				}
-				emit := func(ts pcommon.Timestamp) { p := base; p.id = uint64(ts); out = append(out, p) }
-				switch me.Type() {
-				case pmetric.MetricTypeGauge:
-					for i := 0; i < me.Gauge().DataPoints().Len(); i++ {
-						emit(me.Gauge().DataPoints().At(i).Timestamp())
-					}
-				case pmetric.MetricTypeSum:
-					base.temporality, base.monotonic = me.Sum().AggregationTemporality(), me.Sum().IsMonotonic()
-					for i := 0; i < me.Sum().DataPoints().Len(); i++ {
-						emit(me.Sum().DataPoints().At(i).Timestamp())
-					}
-				case pmetric.MetricTypeHistogram:
-					base.temporality = me.Histogram().AggregationTemporality()
-					for i := 0; i < me.Histogram().DataPoints().Len(); i++ {
-						emit(me.Histogram().DataPoints().At(i).Timestamp())
-					}
-				case pmetric.MetricTypeExponentialHistogram:
-					base.temporality = me.ExponentialHistogram().AggregationTemporality()
-					for i := 0; i < me.ExponentialHistogram().DataPoints().Len(); i++ {
-						emit(me.ExponentialHistogram().DataPoints().At(i).Timestamp())
-					}
-				case pmetric.MetricTypeSummary:
-					for i := 0; i < me.Summary().DataPoints().Len(); i++ {
-						emit(me.Summary().DataPoints().At(i).Timestamp())
-					}
-				}
-			}
-		}
-	}
-	return out
-}
 
 func VerifC04MetricsItems() {
 	var id uint64
